@@ -31,14 +31,14 @@ sys.path.insert(0, os.path.dirname(os.path.abspath(__file__)))
 import props_config as P
 TIES = {
  'C01': 'model of resolve.go (four caches) vs cache-free reference semantics; histories on generated virtual trees',
- 'C02': 'same harness; candidate-order theorems for any loader state; candidate literals regenerated',
+ 'C02': 'same harness, one case in twelve also on a real directory with DefaultSourceLoader/DefaultPathResolver; candidate-order theorems for any loader state; candidate literals regenerated',
  'C03': 'controlled scheduler on the real loop (yield points), trace acceptor + Queue system + coupled system',
  'C04': 'same scenarios; Queue system (FIFO, batches, wake-ups) + progress theorems',
  'C05': 'same scenarios; Ledger system (per-job state) + progress; msToDuration regenerated',
  'C06': 'same scenarios; Ledger (count exact) + coupled system (Run returns exactly at quiescence) + progress',
  'C07': 'same scenarios; Queue (Stop handshake) + bounded-steps theorems',
  'C08': 'same scenarios; Ledger + registry/goroutine matching + coupled system (drain)',
- 'C09': 'panic-site inventory regenerated + hostile-argument sessions on every installed function',
+ 'C09': 'panic-site inventory regenerated + hostile-argument sessions on every installed function + codec grid',
  'C10': 'guards/range checks/sign extension regenerated as BitVec 64 kernels; model/spec/implementation on generated calls',
  'C11': 'codec model vs real Buffer and Go helpers',
  'C12': 'escape tables regenerated; code-shaped model, list-level spec and implementation on histories',
@@ -54,7 +54,12 @@ TIES = {
 props = ["| id | theorems | harness | tie |", "|---|---|---|---|"]
 for k in sorted(P.PROPS):
     c = P.PROPS[k]
-    props.append("| %s | %d | `%s` | %s |" % (k, len(c["theorems"]), c["harness"], TIES[k]))
+    npins = 0
+    pf = os.path.join(ROOT, "lean", "GN", "Props", "Pins", k + ".lean")
+    if os.path.exists(pf):
+        npins = len(re.findall(r'^  \("', open(pf).read(), re.M))
+    props.append("| %s | %d | `%s` | %s%s |" % (k, len(c["theorems"]) + (1 if npins else 0), c["harness"], TIES[k],
+                 ("; %d declarations pinned" % npins) if npins else ""))
 s = put(s, "PROPS", props)
 s = put(s, "FINDINGS", finds)
 s = put(s, "SEEDS", seeds)
